@@ -253,8 +253,9 @@ Lemma crash_not_recoverable_own_commit_echo : refuted_at "own_commit_echo" 2.
 Proof. repeat split; vm_compute; reflexivity. Qed.
 Lemma crash_not_recoverable_merge_pending_commit : refuted_at "merge_pending_commit" 1.
 Proof. repeat split; vm_compute; reflexivity. Qed.
-Lemma crash_not_recoverable_process_welcome : refuted_at "process_welcome" 3.
-Proof. repeat split; vm_compute; reflexivity. Qed.
+(* process_welcome: since the fix (welcome stored before the processed-welcome record) a crash at any unit recovers *)
+Lemma crash_recoverable_process_welcome_units : smallest_failing_k "process_welcome" = None /\ forallb (recovers "process_welcome") (seq 0 8) = true.
+Proof. split; vm_compute; reflexivity. Qed.
 Lemma crash_not_recoverable_accept_welcome : refuted_at "accept_welcome" 12.
 Proof. repeat split; vm_compute; reflexivity. Qed.
 (* create_group: the retry draws a fresh group id; the group row of the interrupted attempt stays behind *)
